@@ -68,7 +68,6 @@ func keys(fs []rep.Finding) []string {
 	return k
 }
 
-
 // Indexed explores the space {mk(0),…,mk(n-1)} completely.
 func Indexed[C any](r *rep.Run, space string, n uint64, mk func(i uint64) C, check Check[C]) {
 	var next atomic.Uint64
